@@ -181,6 +181,25 @@ func probeReuse() string {
 			}
 		}
 	}
+	// membership over arrays has one answer, however often and on whichever calculator it is asked
+	known := []struct {
+		text string
+		want bool
+	}{{"5 NOT IN Array(1,2,3)", true}, {"2 NOT IN Array(1,2,3)", false}, {"2 IN Array(1,2,3)", true}, {"5 IN Array(1,2,3)", false},
+		{"'b' NOT IN Array('a','b')", false}, {"'c' NOT IN Array('a','b')", true}, {"NOT (5 IN Array(1,2,3))", true}, {"1.5 IN Array(1.5, 2)", true}}
+	for round := 0; round < 3; round++ {
+		for _, k := range known {
+			for _, c := range []*calculator.ExpressionCalculator{calc, calculator.NewExpressionCalculator()} {
+				if err := c.SetExpression(k.text); err != nil {
+					return "the expression " + sx.Quote(k.text) + " was rejected: " + err.Error()
+				}
+				r, err := c.Evaluate()
+				if err != nil || r == nil || r.Type() != variants.Boolean || r.AsBoolean() != k.want {
+					return fmt.Sprintf("evaluation %d of %s returns %s (error %v), its value is %v", round+1, sx.Quote(k.text), sx.Text(valSXorNil(r)), err, k.want)
+				}
+			}
+		}
+	}
 	for _, c := range []struct {
 		preset map[string]string
 		tpls   []string
